@@ -85,6 +85,8 @@ def table_case(draw, min_rows=1, max_rows=120, float_coords=False):
     else:
         ra, dec = col("ra", 0.0, 6.28), col("dec", -1.57, 1.57)
     table = {"ra": ra, "dec": dec, "w": None, "z": None, "pid": None, "dtypes": dt}
+    if draw(st.sampled_from([False, False, True])):
+        table["index"] = list(draw(st.permutations(list(range(n)))))  # data frame with non-default row labels
     if draw(st.booleans()):
         table["w"] = col("w", 0.01 if not dt["w"].startswith("i") else 1.0, 10.0)  # positive: a patch of total weight 0 has no defined centre
     if draw(st.booleans()):
